@@ -555,4 +555,9 @@ theorem k_matrixGetEnclosingRectangle_eq (m : WMat) (h32 : ∀ w ∈ m.words, w 
             simp (disch := omega) only [decide_eq_true_eq, if_pos, if_neg, next_thenC] <;>
             (try (congr 1)) <;> (try omega) <;> (try (simp only [Prod.mk.injEq]; omega))
 
+/-- non-vacuity of the hypotheses of the scan theorems: a 40x1 matrix with bits in both words, words below 2^32, fuel 40 -/
+example : ∃ (m : WMat) (fuel : Nat), (∀ w ∈ m.words, w < W32) ∧ m.words.length + 32 < fuel ∧ 33 ≤ fuel ∧
+    WMat.getTopLeftOnBit m = .ok (some [3, 0]) ∧ WMat.getBottomRightOnBit m = .ok (some [39, 0]) :=
+  ⟨⟨40, 1, 2, [8, 128]⟩, 40, by decide, by decide, by decide, by decide, by decide⟩
+
 end Gzx.Obligations.K16bMat
